@@ -49,6 +49,7 @@ type c16 struct {
 	idBase uint64
 	mu     sync.Mutex
 	wmu    sync.Mutex
+	newDB  func() DB // fresh database (bulk-delete cases start on an empty one)
 }
 
 func (c *c16) pf(format string, a ...interface{}) {
@@ -370,6 +371,62 @@ func (c *c16) opInflight() string {
 	return "inflight => " + res
 }
 
+// opDelAll: bulk DeletePayments. Only issued in cases that run on their own
+// database, so the returned count refers to this case's payments.
+func (c *c16) opDelAll(failedOnly, failedHtlcsOnly bool) string {
+	res := ""
+	func() {
+		defer c.guard(&res)
+		n, err := c.db.DeletePayments(c.ctx, failedOnly, failedHtlcsOnly)
+		res = c16ErrName(err)
+		if err == nil {
+			res = fmt.Sprintf("ok n=%d", n)
+		}
+	}()
+	b := func(x bool) int {
+		if x {
+			return 1
+		}
+		return 0
+	}
+	return fmt.Sprintf("delall fo=%d fho=%d => %s", b(failedOnly), b(failedHtlcsOnly), res)
+}
+
+// opList: QueryPayments over everything, restricted to this case's hashes,
+// canonical order by hash index: "h:status".
+func (c *c16) opList(incl bool) string {
+	res := ""
+	func() {
+		defer c.guard(&res)
+		resp, err := c.db.QueryPayments(c.ctx, Query{
+			MaxPayments:       1 << 20,
+			IncludeIncomplete: incl,
+		})
+		if err != nil {
+			res = c16ErrName(err)
+			return
+		}
+		var hs []string
+		for _, p := range resp.Payments {
+			for i := range c.hashes {
+				if p.Info.PaymentIdentifier == c.hashes[i] {
+					hs = append(hs, fmt.Sprintf("%d:%d", i, int(p.Status)))
+				}
+			}
+		}
+		sort.Strings(hs)
+		res = "ok set=" + strings.Join(hs, ",")
+		if len(hs) == 0 {
+			res = "ok set=-"
+		}
+	}()
+	incN := 0
+	if incl {
+		incN = 1
+	}
+	return fmt.Sprintf("list incl=%d => %s", incN, res)
+}
+
 func (c *c16) startCase(kind string) {
 	c.keyN = 0
 	c.idBase = uint64(c.n) * 64
@@ -488,6 +545,7 @@ func (c *c16) pickAmt(p *c16Shadow) uint64 {
 
 type c16Case struct {
 	wild   bool
+	bulk   bool // case runs on its own database and issues DeletePayments
 	mode   int // 0 mpp, 1 plain, 2 blinded, 3 mixed
 	sh     [c16Hashes]c16Shadow
 	nextID uint64
@@ -626,6 +684,10 @@ func (c *c16) genOp(cs *c16Case) {
 				{"del", 8}, {"delfailed", 10}, {"fetch", 8}, {"inflight", 6}}
 		}
 	}
+	ws = append(ws, wop{"list", 3})
+	if cs.bulk {
+		ws = append(ws, wop{"delall", 10})
+	}
 	tot := 0
 	for _, w := range ws {
 		tot += w.w
@@ -742,6 +804,71 @@ func (c *c16) genOp(cs *c16Case) {
 
 	case "inflight":
 		c.pf("%s", c.opInflight())
+
+	case "list":
+		c.pf("%s", c.opList(c.rng.Intn(3) != 0))
+
+	case "delall":
+		c.doDelAll(cs, c.rng.Intn(100) < 60, c.rng.Intn(100) < 40)
+	}
+}
+
+// doDelAll issues DeletePayments, updates the shadow and observes every
+// payment of the case afterwards.
+func (c *c16) doDelAll(cs *c16Case, fo, fho bool) {
+	c.pf("%s", c.opDelAll(fo, fho))
+	for h := range cs.sh {
+		p := &cs.sh[h]
+		if !p.exists || p.status() == 2 || (fo && p.status() != 4) {
+			continue
+		}
+		if fho {
+			var keep []c16ShadowAtt
+			for _, a := range p.atts {
+				if a.st != 'F' {
+					keep = append(keep, a)
+				}
+			}
+			p.atts = keep
+		} else {
+			*p = c16Shadow{}
+		}
+	}
+	for h := 0; h < c16Hashes; h++ {
+		c.pf("%s", c.opFetch(h))
+	}
+	c.pf("%s", c.opInflight())
+	c.pf("%s", c.opList(true))
+}
+
+// scenario drives payment h through the documented two-shard history: both
+// shards registered, the first one fails, the payment is failed at payment
+// level while the second shard is still in flight; then, by variant, the second
+// shard settles (status succeeded WITH a failure reason), stays in flight
+// (in flight WITH a failure reason) or fails (failed).
+func (c *c16) scenario(cs *c16Case, h int, variant int) {
+	p := &cs.sh[h]
+	v := []uint64{10, 10, 1000, 7}[c.rng.Intn(4)]
+	c.pf("%s", c.opInit(h, v))
+	*p = c16Shadow{exists: true, value: v}
+	a, b := cs.nextID, cs.nextID+1
+	cs.nextID += 2
+	c.pf("%s", c.opReg(h, a, v/2, "m", 1, v, 1))
+	c.pf("%s", c.opReg(h, b, v-v/2, "m", 1, v, 2))
+	p.atts = []c16ShadowAtt{{a, v / 2, 'I'}, {b, v - v/2, 'I'}}
+	c.pf("%s", c.opFailAtt(h, a))
+	p.atts[0].st = 'F'
+	if variant != 3 {
+		c.pf("%s", c.opFail(h, c.rng.Intn(6)))
+		p.reason = true
+	}
+	switch variant {
+	case 0, 3:
+		c.pf("%s", c.opSettle(h, b))
+		p.atts[1].st = 'S'
+	case 2:
+		c.pf("%s", c.opFailAtt(h, b))
+		p.atts[1].st = 'F'
 	}
 }
 
@@ -750,10 +877,29 @@ func (c *c16) genCase(wild bool) {
 	if wild {
 		kind = "wild"
 	}
+	bulk := c.rng.Intn(100) < 30
+	if bulk && c.newDB != nil {
+		// bulk DeletePayments acts on (and counts) every payment in the
+		// database: such a case starts on an empty one.
+		c.db = c.newDB()
+	} else {
+		bulk = false
+	}
 	c.startCase(kind)
-	cs := &c16Case{wild: wild, mode: c.rng.Intn(4), focus: c.rng.Intn(c16Hashes)}
+	cs := &c16Case{wild: wild, bulk: bulk, mode: c.rng.Intn(4), focus: c.rng.Intn(c16Hashes)}
 	if c.rng.Intn(100) < 35 {
 		cs.mode = 0
+	}
+	if !wild && (bulk || c.rng.Intn(100) < 15) {
+		cs.mode = 0
+		for h := 0; h < c16Hashes; h++ {
+			if c.rng.Intn(100) < 65 {
+				c.scenario(cs, h, c.rng.Intn(4))
+			}
+		}
+		if bulk && c.rng.Intn(100) < 70 {
+			c.doDelAll(cs, c.rng.Intn(100) < 70, c.rng.Intn(100) < 35)
+		}
 	}
 	n := 12 + c.rng.Intn(50)
 	for i := 0; i < n; i++ {
@@ -764,6 +910,7 @@ func (c *c16) genCase(wild bool) {
 		c.pf("%s", c.opFetch(h))
 	}
 	c.pf("%s", c.opInflight())
+	c.pf("%s", c.opList(true))
 	c.endCase()
 }
 
@@ -963,6 +1110,10 @@ func TestVerifC16(t *testing.T) {
 					t: t, w: bufio.NewWriter(&bufs[i]), db: db,
 					ctx: context.Background(), n: i + 1,
 					rng: rand.New(rand.NewSource(seed*1000003 + int64(i))),
+					newDB: func() DB {
+						d, _ := NewTestDB(t)
+						return d
+					},
 				}
 				if i%10 == 9 {
 					// every tenth case: concurrent tier
@@ -971,6 +1122,7 @@ func TestVerifC16(t *testing.T) {
 					c.genCase(c.rng.Intn(100) < 40)
 				}
 				c.w.Flush()
+				db = c.db
 			}
 		}()
 	}
